@@ -109,10 +109,10 @@ def owns(clause, p=None):
 def run(ctx):
     quick = ctx.tier == "quick"
     rng = random.Random(ctx.seed * 7919 + 18)
-    tasks = sp.gen_tasks(ctx, rng, 8 if quick else 40, 3 if quick else 8, make_groups, 7, ("fail",), ("mom", "wd", "lr", "b1"))
+    tasks = sp.gen_tasks(ctx, rng, 8 if quick else 40, 3 if quick else 8, make_groups, 7, ("fail",), ("mom", "wd", "lr", "b1", "freq"))
     # checkpoints taken from and loaded into the LIVE optimizers (rollback / reload between compiled steps); behaviours that
     # really roll back (Save, then a step, then Load, then a step) are preferred
-    cand = sp.gen_tasks(ctx, rng, 8 if quick else 30, 30 if quick else 60, make_groups, 8, (), ("wd", "lr"), ckpt=True)
+    cand = sp.gen_tasks(ctx, rng, 8 if quick else 30, 30 if quick else 60, make_groups, 8, (), ("wd", "lr", "freq"), ckpt=True)
     cand.sort(key=lambda t: -rollback_score(t[1]))
     n_ck = 24 if quick else 200
     tasks += cand[:n_ck]
@@ -145,7 +145,7 @@ def run(ctx):
     ctx.add("traces_validated_against_impl", len(idx))
     ctx.put("distinct_nontrivial", sp.nontrivial_count(tasks))
     ctx.put("rule", "each TLC-simulated behaviour (warm-up/preconditioned switch, refresh steps, gradient-presence changes that force "
-                    "recompilation, tolerated failures, hyper changes, Save / Load of a checkpoint into the live optimizer) is run on an eager optimizer and on optimizers compiled with backend "
+                    "recompilation, tolerated failures, hyper changes incl. precondition_frequency, Save / Load of a checkpoint into the live optimizer) is run on an eager optimizer and on optimizers compiled with backend "
                     "eager / aot_eager in static, dynamic and auto-dynamic mode; parameters and every state tensor are compared bitwise after "
                     "every step; a run counts as a program only if dynamo reports compiled frames; the compiled run's trace is validated by TLC; "
                     "edge class = (stepped, use-graft, refresh, selector changed, hyper changed)")
